@@ -41,7 +41,7 @@ type c19Case struct {
 }
 
 var c19Dirs = []string{"", "src", "src/lib", "third_party/x/y", "docs", "a.b"}
-var c19Kinds = []string{"licensed", "licensed", "header", "two-headers", "same-as-first", "same-as-first", "two-licenses", "prose", "empty", "crlf", "no-trailing-newline", "long-line-before", "long-line-inside", "binary", "notice-and-license", "edited", "symlink-licensed"}
+var c19Kinds = []string{"licensed", "licensed", "header", "two-headers", "same-as-first", "same-as-first", "two-licenses", "prose", "empty", "crlf", "no-trailing-newline", "long-line-before", "long-line-inside", "binary", "notice-and-license", "edited", "symlink-licensed", "crcrlf"}
 var c19Names = []string{"LICENSE", "COPYING.txt", "main.go", "x.c", "NOTICE", "file.rs", "README.md", "a", "b.txt", "zz.h", "lic.TXT", "m.py"}
 
 func c19Gen(t *rapid.T) interface{} {
@@ -90,6 +90,8 @@ func c19Content(f c19File) []byte {
 		return nil
 	case "crlf":
 		return []byte(strings.Replace(pre+string(d1.Content)+"\n"+post, "\n", "\r\n", -1))
+	case "crcrlf": // a CR LF file converted a second time: every line ends in CR CR LF
+		return []byte(strings.Replace(pre+string(d1.Content)+"\n"+post, "\n", "\r\r\n", -1))
 	case "no-trailing-newline":
 		return []byte(strings.TrimRight(pre+string(d1.Content), "\n \t\r"))
 	case "long-line-before":
@@ -379,7 +381,7 @@ func c19CLICheck(ci interface{}) lib.Outcome {
 				k := fmt.Sprintf("%s|%v|%d|%d", cc.Name, cc.Confidence, cc.StartLine, cc.EndLine)
 				gotJSON[fc.Filepath] = append(gotJSON[fc.Filepath], k)
 				if c.IncludeText {
-					if want, ok := wantText[fc.Filepath+"\x00"+k]; ok && normText(cc.Text) != jsonImage(want) {
+					if want, ok := wantText[fc.Filepath+"\x00"+k]; ok && cc.Text != jsonImage(want) {
 						if d := os.Getenv("VERIF_DEBUG"); d != "" {
 							os.WriteFile(d+"/want.txt", []byte(want), 0o644)
 							os.WriteFile(d+"/got.txt", []byte(cc.Text), 0o644)
